@@ -15,6 +15,28 @@ def B(bits, sd):
     return mk(bits, L if sd == 'L' else R)
 
 
+# Some callers hand the constructor a `bytearray` they keep using (a receive buffer).  The library copies it (the constructor slices the
+# content); a Buffer that keeps the caller's object instead changes when the caller's array does, and a non-in-place operation that
+# extends `content` changes the operand and the caller's array.  A deterministic fifth of the cases of these operations builds its
+# operands from bytearrays; afterwards the arrays must be what they were and the operands unchanged.  (Results of such operands may
+# carry bytearray content on the unchanged tree: whether they hash is not asked of them.)
+BA_OPS = ('copy', 'getitem', 'getint', 'add', 'pad', 'shift', 'and', 'or', 'xor', 'invert', 'value', 'chunks', 'iter', 'len', 'eq')
+
+
+def Bba(bits, sd):
+    n = len(bits)
+    v = int(bits or '0', 2)
+    nb = (n + 7) // 8
+    ba = bytearray(v.to_bytes(nb, 'big') if sd == 'L' else (v << ((8 - n % 8) % 8)).to_bytes(nb, 'big'))
+    b = Buffer(ba, n, L if sd == 'L' else R)
+    return b, ba
+
+
+def use_bytearray(case):
+    import zlib
+    return case[0] in BA_OPS and bool(case[1]) and zlib.crc32(repr(case).encode()) % 5 == 0
+
+
 def contents(rnd, n, k=2):
     """A few revealing contents of length n: all ones, alternating, random."""
     if n == 0:
@@ -40,7 +62,15 @@ def opt(x):
 def run_case(case):
     """Run one case on the implementation.  Returns a dict with the observation."""
     op = case[0]
-    ops = [B(*x) for x in case[1]]          # Buffer operands
+    arrays = []
+    if use_bytearray(case):
+        ops = []
+        for x in case[1]:
+            b_, ba_ = Bba(*x)
+            ops.append(b_)
+            arrays.append((ba_, bytes(ba_)))
+    else:
+        ops = [B(*x) for x in case[1]]          # Buffer operands
     par = case[2]
     before = [snapshot(b) for b in ops]
     inplace_self = False
@@ -121,7 +151,8 @@ def run_case(case):
     else:
         raise ValueError(op)
     after = [snapshot(b) for b in ops]
-    return {'out': out, 'before': before, 'after': after, 'ops': ops, 'inplace_self': inplace_self}
+    return {'out': out, 'before': before, 'after': after, 'ops': ops, 'inplace_self': inplace_self,
+            'arrays': [(bytes(a), snap) for a, snap in arrays]}
 
 
 def show_value(v):
@@ -320,7 +351,7 @@ def judge(case, res):
                 fails.append('result %s, expected %s' % (sv, exp))
         # whatever operation produced it, a Buffer is usable as a key: it hashes like a fresh Buffer with the same bits (C13)
         from core import Buffer as _B
-        for r_ in ([val] if isinstance(val, _B) else [x for x in val if isinstance(x, _B)] if isinstance(val, list) else []):
+        for r_ in [] if res.get('arrays') else ([val] if isinstance(val, _B) else [x for x in val if isinstance(x, _B)] if isinstance(val, list) else []):
             try:
                 if hash(r_) != hash(mk(bits_of(r_), L)):
                     fails.append('result %s does not hash like an equal fresh buffer' % raw(r_))
@@ -338,4 +369,7 @@ def judge(case, res):
                     fails.append('receiver side after in-place %s: %s' % (op, raw(o)))
         elif b4 != af:
             fails.append('operand %d modified by %s: %r -> %r' % (i, op, b4, af))
+    for i, (now, snap) in enumerate(res.get('arrays') or []):
+        if now != snap and not (i == 0 and res['inplace_self']):
+            fails.append("the caller's bytearray behind operand %d was modified by %s: %s -> %s" % (i, op, snap.hex(), now.hex()))
     return fails
